@@ -322,6 +322,28 @@ def bounded(chk):
             bad = want not in got or "\x7f" in got
         if bad:
             fails2.append({"detail": f"{name}: {text!r}: body not verbatim / interpreted ({got[:80]!r})", "witness": {"wikitext": text}, "class": f"context:{name}"})
+    # the entry point without a wiki (parse_string(raw=...) / parse_txt(txt)): regions nested in a body that is parsed again
+    fails3, n3 = [], 0
+    from mwlib.parser.refine import uparser
+    for outer in ("ref", "poem", "gallery"):
+        for tag, first, second in (("nowiki", "a", "[[b]]"), ("nowiki", "''p''", "{{q}}"), ("math", "x^2", "y_1"), ("pre", "one", "''two''")):
+            inner = f"<{tag}>{second}</{tag}>" if outer != "gallery" else f"Image:x.png|<{tag}>{second}</{tag}>"
+            text = f"x<{tag}>{first}</{tag}><{outer}>{inner}</{outer}>"
+            n3 += 1
+            try:
+                got = collect_text(uparser.parse_string("P", raw=text, lang="en"))
+            except Exception as e:  # noqa: BLE001
+                fails3.append({"detail": f"{text!r} raised {type(e).__name__}", "witness": {"wikitext": text, "wikidb": None}, "class": "no-wikidb:raise"})
+                break
+            if second not in got or first not in got or "\x7f" in got:
+                fails3.append({"detail": f"no wikidb: {text!r}: both bodies must be in the tree verbatim, got {got[:100]!r}",
+                               "witness": {"wikitext": text, "wikidb": None}, "class": f"no-wikidb:{outer}"})
+                break
+        if fails3:
+            break
+    chk.bounded_result("opaque_bodies_without_a_wikidb", n3, n3, True,
+                       "two protected regions, the second inside <ref> / <poem> / <gallery> (bodies that are parsed again by the expander), through uparser.parse_string without a wikidb",
+                       fails3[:1])
     chk.bounded_result("opaque_bodies_in_reported_contexts", len(shapes), len(shapes), True,
                        "nowiki / source bodies in 8 further embedding contexts (table caption, attribute of an unknown tag, #tag argument, syntaxhighlight with a foreign closing tag, include-control tags inside nowiki, argument of a string function, image option)",
                        fails2)
